@@ -2,9 +2,9 @@
 """tools/mut.py FILE 'old' 'new' PROP [PROP...]  -- apply a one-off textual mutation to /repo, run checks, revert.
    tools/mut.py --patch file.diff PROP...       -- same with a patch file.
 Used only to validate the checkers (never part of a check)."""
-import subprocess, sys, os
+import os, subprocess, sys, os
 args = sys.argv[1:]
-repo = '/repo'
+repo = os.environ.get('DV_REPO', '/repo')
 try:
     if args[0] == '--patch':
         subprocess.check_call(['git', '-C', repo, 'apply', args[1]])
